@@ -44,14 +44,25 @@ func guards(c *Ctx, out string, stall time.Duration) {
 			time.Sleep(pollerPeriod)
 			metrics.Read(s)
 			live := int64(s[0].Value.Uint64())
-			if lim := c.heapLimit.Load(); live > lim {
+			lim := c.heapLimit.Load()
+			if c.concurrent.Load() {
+				// many goroutines allocating at once: what they allocate while a
+				// collection is marking stays in this metric until the next one
+				// (allocated black), so right after runtime.GC() it still holds
+				// live + floating garbage; on a loaded machine that was 1.2 GiB
+				// over a live set of a few MiB (false HEAP alarm in C14's
+				// parallel streams, DESIGN 12.3). The ceiling is a protection of
+				// the machine there, not a measurement: four times as high.
+				lim *= 4
+			}
+			if live > lim {
 				// garbage the collector has not got round to yet counts in
 				// this metric: collect and look again before calling it
 				mon.HarnessGCs.Add(1)
 				runtime.GC()
 				metrics.Read(s)
 				live = int64(s[0].Value.Uint64())
-				if live <= c.heapLimit.Load() {
+				if live <= lim {
 					continue
 				}
 				desc := c.currentString()
